@@ -796,6 +796,24 @@ pub fn universe() -> Vec<TyU> {
     ];
     u.push(TyU { ty: t_res(Ty::Void, Ty::Bool), pats: p, len: (2, 3), ctx_len: (0, 0), groups: vec![] });
 
+    // 19 (bool, St): a struct pattern with literal fields next to irrefutable components of the same product
+    let st = |a: &Pat, b: &Pat| Pat::Struct(Form::Pos, vec![a.clone(), b.clone()]);
+    let mut p = vec![w.clone(), bind("v"), Pat::Tuple(vec![w.clone(), w.clone()]), Pat::Tuple(vec![bind("v0"), bind("v1")])];
+    for a in [w.clone(), bind("v0"), t.clone()] {
+        for q in [st(&t, &w), st(&w, &f), st(&t, &t), st(&w, &w), st(&f, &bind("v1")), Pat::Struct(Form::NamedRev, vec![w.clone(), t.clone()])] {
+            p.push(Pat::Tuple(vec![a.clone(), q]));
+        }
+    }
+    u.push(TyU { ty: t_tup(vec![Ty::Bool, t_st()]), pats: p, len: (2, 3), ctx_len: (0, 0), groups: vec![] });
+
+    // 20 Bx<St>: a struct pattern as the only component of another struct pattern
+    let bx = |q: Pat| Pat::Struct(Form::Pos, vec![q]);
+    let mut p = vec![w.clone(), bind("v"), bx(w.clone()), bx(bind("v0"))];
+    for q in [st(&t, &w), st(&w, &f), st(&t, &t), st(&f, &f), st(&w, &w), st(&bind("v0"), &t), Pat::Struct(Form::Named, vec![f.clone(), bind("v1")])] {
+        p.push(bx(q));
+    }
+    u.push(TyU { ty: t_bx(t_st()), pats: p, len: (2, 3), ctx_len: (0, 0), groups: vec![] });
+
     u
 }
 
